@@ -114,9 +114,12 @@ def run_shard(shard, tier, seed, wd, res):
 
     again = []
 
-    def emit(b):
+    PLACES = (0, 1, 2, 3, 4, 5, 6, 7, 8, 9, 12, 15)
+
+    def emit(b, place=None):
+        # the encoding object is placed at a varying address modulo 16 (the outcome must not depend on it)
         for op in ops:
-            s.op(op, V.b(bytes(b)))
+            s.op(op, V.b(bytes(b)), V.n(rng.choice(PLACES) if place is None else place))
         if rng.random() < 0.2:
             again.append(bytes(b))
 
@@ -171,6 +174,12 @@ def run_shard(shard, tier, seed, wd, res):
             b = bytearray(rng.getrandbits(8) for _ in range(n))
             b[0] = (b[0] & 0x1f) | (0xc0 if comp else 0x40) | (rng.getrandbits(1) << 5)
             emit(b)
+        # one dirty byte near either end of the payload x every placement of the object
+        for pos in list(range(1, 9)) + list(range(n - 8, n)):
+            for place in PLACES:
+                b = bytearray(base)
+                b[pos] = rng.choice([1, 0x80, 0xff])
+                emit(b, place)
     else:
         c = E1 if g == 1 else E2
         for _ in range(60 if q else 400):
